@@ -141,10 +141,10 @@ def run(tier, work):
     exs = vlib.run_vdrv(exe, conf, scen, work, tag="run")
     print("RUN %d scenarios in %.1fs" % (len(exs), time.time() - t1))
     ncrash = 0
-    for ex in exs:
-        for sig in vlib.crashed(ex):
+    for ex, sigs, raw in vlib.confirmed_crashes(exe, conf, scen, exs, work):
+        for sig in sigs:
             ncrash += 1
-            verdict.add(sig, [json.dumps(allh[int(ex["id"])])] + scen[int(ex["id"])][1], "driver failure in a command-turn scenario")
+            verdict.add(sig, [json.dumps(allh[int(ex["id"])])] + scen[int(ex["id"])][1], "driver failure in a command-turn scenario", raw=raw)
     projs = [project(ex) for ex in exs]
     accepted, nevents, rejects = vlib.validate_executions(SPEC, "CmdTurnTrace", "CmdTurnTrace.cfg", projs, work)
     for badi, upto in rejects:
